@@ -23,6 +23,9 @@ type request struct {
 	ctx  context.Context
 	msg  *Message
 	opts callOptions
+	// streamDone is closed when a server-stream call has completed and no longer
+	// reads its response channel (nil for every other call type).
+	streamDone <-chan struct{}
 }
 
 // waitForSend returns true if the WithNoSendWaiting call option is not set.
@@ -39,6 +42,19 @@ type response struct {
 type responseRouter struct {
 	c         chan<- response
 	streaming bool
+	// done is closed when the (streaming) call behind c has completed; nil otherwise.
+	done <-chan struct{}
+}
+
+// deliver hands resp to the call. A server-stream call may receive more responses
+// than its channel holds and may complete at any time: the send is given up when the
+// call is done, so that the caller of deliver (which holds responseMut) cannot be
+// blocked for ever by a call that no longer reads.
+func (r responseRouter) deliver(resp response) {
+	select {
+	case r.c <- resp:
+	case <-r.done:
+	}
 }
 
 type channel struct {
@@ -124,7 +140,7 @@ func (c *channel) cancelPendingMsgs() {
 	c.responseMut.Lock()
 	defer c.responseMut.Unlock()
 	for msgID, router := range c.responseRouters {
-		router.c <- response{nid: c.node.ID(), err: streamDownErr}
+		router.deliver(response{nid: c.node.ID(), err: streamDownErr})
 		// delete the router if we are only expecting a single reply message
 		if !router.streaming {
 			delete(c.responseRouters, msgID)
@@ -136,7 +152,7 @@ func (c *channel) routeResponse(msgID uint64, resp response) {
 	c.responseMut.Lock()
 	defer c.responseMut.Unlock()
 	if router, ok := c.responseRouters[msgID]; ok {
-		router.c <- resp
+		router.deliver(resp)
 		// delete the router if we are only expecting a single reply message
 		if !router.streaming {
 			delete(c.responseRouters, msgID)
@@ -147,7 +163,7 @@ func (c *channel) routeResponse(msgID uint64, resp response) {
 func (c *channel) enqueue(req request, responseChan chan<- response, streaming bool) {
 	if responseChan != nil {
 		c.responseMut.Lock()
-		c.responseRouters[req.msg.Metadata.MessageID] = responseRouter{responseChan, streaming}
+		c.responseRouters[req.msg.Metadata.MessageID] = responseRouter{responseChan, streaming, req.streamDone}
 		c.responseMut.Unlock()
 	}
 	// either enqueue the request on the sendQ or respond
